@@ -174,4 +174,5 @@ Record pconfig := {
   pc_name : str; pc_opts : popts; pc_nsdelim : str; pc_envdelim : str;
   pc_handler : handler_kind; pc_cmdhandler : bool; pc_usage : str;
   pc_env : list (str * str);         (* environment: LookupEnv *)
-  pc_cols : N }.                     (* terminal columns as seen by getTerminalColumns, already defaulted *)
+  pc_cols : N;                       (* terminal columns as seen by getTerminalColumns *)
+  pc_shortdesc : str; pc_longdesc : str }.   (* parser.ShortDescription / LongDescription *)
